@@ -180,6 +180,17 @@ pub fn proof_gen(s: Suite, pk: &[u8], sig: &[u8], header: &Opt, ph: &Opt, msgs: 
     })
 }
 
+/// ProofGen, returning the octets AND the serde_json text of the freshly generated object (before
+/// any octet round trip): what an application that ships the serde form would send
+pub fn proof_gen_with_json(s: Suite, pk: &[u8], sig: &[u8], header: &Opt, ph: &Opt, msgs: &OptList, disclosed: &OptIdx) -> Result<(Bytes, String), String> {
+    let pk = BBSplusPublicKey::from_bytes(pk).map_err(e2s)?;
+    with_suite!(s, CS, {
+        let p = PoKSignature::<BBSplus<CS>>::proof_gen(&pk, sig, header.as_deref(), ph.as_deref(), msgs.as_deref(), disclosed.as_deref()).map_err(e2s)?;
+        let j = serde_json::to_string(&p).map_err(|e| e.to_string())?;
+        Ok((p.to_bytes(), j))
+    })
+}
+
 pub fn proof_verify(s: Suite, pk: &[u8], proof: &[u8], header: &Opt, ph: &Opt, dmsgs: &OptList, didx: &OptIdx) -> Res {
     let pk = match BBSplusPublicKey::from_bytes(pk) { Ok(p) => p, Err(e) => return Res::Reject(e2s(e)) };
     with_suite!(s, CS, {
@@ -368,6 +379,15 @@ pub fn pk_to_coordinates(pk: &[u8]) -> Result<(Bytes, Bytes), String> {
     let p = BBSplusPublicKey::from_bytes(pk).map_err(e2s)?;
     let (x, y) = p.to_coordinates();
     Ok((x.to_vec(), y.to_vec()))
+}
+
+/// the same for a caller-chosen interface identifier
+pub fn merged_blind_generators_for(s: Suite, n: usize, m: usize, api: Option<&[u8]>) -> Result<Vec<[u8; 48]>, String> {
+    use group::Curve;
+    with_suite!(s, CS, {
+        let (_, g) = zkryptium::bbsplus::blind::prepare_parameters::<CS>(None, None, n, m, None, api).map_err(e2s)?;
+        Ok(g.values.iter().map(|p| p.to_affine().to_compressed()).collect())
+    })
 }
 
 /// the generator list the blind interface verifies against: create(n, api) ++ create(m, "BLIND_" || api)
